@@ -264,3 +264,29 @@ CHECKS = {
 }
 
 NOT_APPLICABLE = {p: _UNDER for p in [f'C{i:02d}' for i in range(1, 21)] if p not in CHECKS}
+
+
+# Sentences appended to the `text` of a check (what later rounds added to its oracle; see DESIGN.md section 8).
+ADDENDA = {
+    'C01': 'Also after the convention went through pickle / copy / deepcopy, and with Arakawa C indexes written through the grid kind call helper.',
+    'C02': 'Mesh configurations include unsigned connectivity tables whose all-ones fill value is kept as an attribute.',
+    'C03': 'The winding axis is also given as a numpy integer.',
+    'C05': 'Indexes outside the grid are refused (symbolic overshoot); tables with an index other than 0..n-1 are answered row by row; '
+           "the 'fill' result is also saved and read back for six encodings (real files).",
+    'C06': 'Conventions built with caller-given coordinate names are included.',
+    'C07': 'Masks are boolean arrays; a second mask from the same convention for another symbolic hit set owes nothing to the first, '
+           'which stays what it was.',
+    'C08': 'Attributes of every variable and coordinate pass through (decoded fill / packing attributes may move to the encoding); '
+           'fill values given as plain Python numbers are honoured.',
+    'C09': 'Connectivity tables built in memory as int64 / int16 keep their type.',
+    'C12': 'Variables along the depth axis only go with the dimension; an integer variable on the layers stays integer; stored cell bounds '
+           'and the encoding of reduced variables are untouched.',
+    'C13': 'Options given as numpy booleans / ints mean what Python booleans mean; a layer dimension may have an index coordinate of its own.',
+    'C14': 'Includes a one-based in-memory mesh with attribute fill values, and a second call after the caller overwrote the first answer.',
+    'C15': 'The shapefile target is also a path object with dots in its name: the files written are the ones named.',
+    'C16': 'Real datasets: chunked (dask) twins get the same key; a dataset derived from one that was hashed before, with another type and '
+           'the same bytes, gets another key.',
+    'C17': 'Round trips include time bounds variables, the calendar names standard / gregorian / proleptic_gregorian and scalar time.',
+    'C19': 'A leftover dimension of length one is refused like any other.',
+    'C20': 'extract-points is also run with -d / --point-dimension.',
+}
